@@ -69,8 +69,15 @@ def check_normalize(ctx):
     spec = {True: pred.atom_ge(off1 - off0 - Lin.var("|cod0|")), False: pred.atom_ge(off0 - off1 - Lin.var("|dom1|"))}
     # which configuration does interchange try first for each flag?  (from C05's analysis of the chain)
     sub = Ctx("C05", m, ctx.tier)
-    c05.check(sub)
     ifn = m.func(c05.FN)
+    try:
+        c05.check(sub)
+    except AnalysisError:
+        bad = [o for o in sub.obs if not o.ok]
+        if bad:         # what C05 already decided against interchange stands, even if the rest of it could not be analysed
+            ctx.ob("R06.2", c05.FN + ":step-primitive", False, found=["%s %s" % (o.rule, o.construct) for o in bad][:4], required="the only step primitive, interchange, is a legal single exchange (C05)",
+                   mod=RW, node=ifn, sig="c05:" + ",".join(sorted({o.rule for o in bad})))
+        raise
     iflag = ifn.args.args[3].arg
     bad = [o for o in sub.obs if not o.ok]
     ctx.ob("R06.2", c05.FN + ":step-primitive", not bad and not sub.broken, found=["%s %s" % (o.rule, o.construct) for o in bad][:4] or "all C05 obligations discharged",
